@@ -50,6 +50,15 @@ EXTRA = [
     ('group_bare', 'SELECT a, count(*) AS n FROM int1.t1 GROUP BY a HAVING count(*) > 0 ORDER BY a'),
     ('column_named_like_table', 'SELECT t1.id AS t1 FROM int1.t1'),
     ('three_part_in_where_only', 'SELECT id FROM int1.t1 WHERE int1.t1.x > 10 ORDER BY int1.t1.id'),
+    # names of CTEs / aliases with upper-case letters (they must not be mistaken for objects of the default namespace)
+    ('cte_upper', 'WITH Recent AS (SELECT id, a FROM int1.t1) SELECT Recent.id FROM Recent'),
+    ('cte_upper_join', 'WITH Q AS (SELECT id, a FROM int1.t1) SELECT Q.id FROM Q JOIN int1.t3 ON Q.id = t3.id'),
+    ('cte_upper_in_subquery', 'WITH Recent AS (SELECT id FROM int1.t3) SELECT id FROM int1.t1 WHERE id IN (SELECT id FROM Recent)'),
+    ('cte_two_mixed_case', 'WITH a1 AS (SELECT id FROM int1.t1), B2 AS (SELECT id FROM int1.t3) SELECT a1.id FROM a1 JOIN B2 ON a1.id = B2.id'),
+    ('cte_lower_in_subquery', 'WITH recent AS (SELECT id FROM int1.t3) SELECT id FROM int1.t1 WHERE id IN (SELECT id FROM recent)'),
+    ('alias_upper', 'SELECT T.id FROM int1.t1 AS T WHERE T.a = 1'),
+    ('nested_alias_upper', 'SELECT S.id FROM (SELECT id FROM int1.t1) AS S'),
+    ('join_aliases_upper', 'SELECT A.id, B.c FROM int1.t1 AS A JOIN int1.t3 AS B ON A.id = B.id'),
 ]
 
 NEGATIVE = [
